@@ -231,7 +231,8 @@ package atree
 //@   requires storage != nil && wfMeta0(a) && metaLinked(a) && 0 <= li && ri == li + 1 && ri < len(a.childrenHeaders)
 //@   requires isArr(l) && isArr(r) && sameKind(l, r) && l == sto[a.childrenHeaders[li].slabID] && r == sto[a.childrenHeaders[ri].slabID] && nodeWF(l) && nodeWF(r)
 //@   requires (forall k :: 0 <= k && k < len(a.childrenHeaders) && k != li && k != ri ==> a.childrenHeaders[k].count >= 1)
-//@   requires a.childrenHeaders[li].count + a.childrenHeaders[ri].count >= 1 && hdrOf(l).count + hdrOf(r).count <= 4294967295
+//@   requires a.childrenHeaders[li].count + a.childrenHeaders[ri].count >= 1
+//@   requires hdrOf(l) == a.childrenHeaders[li] && hdrOf(r) == a.childrenHeaders[ri]
 //@   requires minThreshold + ite(is(l, *ArrayDataSlab), 21, 12) <= hdrOf(l).size + hdrOf(r).size && hdrOf(l).size + hdrOf(r).size - ite(is(l, *ArrayDataSlab), 21, 12) <= maxThreshold
 //@   ensures err != nil ==> categorised(err)
 //@   ensures[C06] err == nil ==> wfMeta(a) && a.header.count == old(a.header.count) && a.header.slabID == old(a.header.slabID) && a.header.size == old(a.header.size) - 14
@@ -246,3 +247,24 @@ package atree
 //@   modifies a.childrenHeaders, a.childrenCountSum, a.header, ghost.sto, ghost.stored, ghost.touched, alloc,
 //@        as(l, *ArrayDataSlab).elements, as(l, *ArrayDataSlab).header, as(l, *ArrayDataSlab).next,
 //@        as(l, *ArrayMetaDataSlab).childrenHeaders, as(l, *ArrayMetaDataSlab).childrenCountSum, as(l, *ArrayMetaDataSlab).header
+
+//@ pred sibReady(a *ArrayMetaDataSlab, k int, child ArraySlab) = isArr(sto[a.childrenHeaders[k].slabID]) && sameKind(sto[a.childrenHeaders[k].slabID], child) &&
+//@      nodeWF(sto[a.childrenHeaders[k].slabID]) && hdrBand(a.childrenHeaders[k]) && sto[a.childrenHeaders[k].slabID] != child
+
+//@ func (a *ArrayMetaDataSlab) MergeOrRebalanceChildSlab(storage, child, chi, underflowSize) (err)  serves C01 C03 C05 C06 C09
+//@   requires storage != nil && wfMeta0(a) && metaLinked(a) && 0 <= chi && chi < len(a.childrenHeaders) && len(a.childrenHeaders) >= 2
+//@   requires isArr(child) && child == sto[a.childrenHeaders[chi].slabID] && nodeWF(child)
+//@   requires hdrOf(child).size < minThreshold && hdrOf(child).size >= ite(is(child, *ArrayDataSlab), 21, 12) && underflowSize == minThreshold - hdrOf(child).size
+//@   requires (forall k :: 0 <= k && k < len(a.childrenHeaders) && k != chi ==> a.childrenHeaders[k].count >= 1)
+//@   requires (chi > 0 ==> a.childrenHeaders[chi - 1].count >= 1) && (chi < len(a.childrenHeaders) - 1 ==> a.childrenHeaders[chi + 1].count >= 1)
+//@   assume (chi > 0 ==> sibReady(a, chi - 1, child)) && (chi < len(a.childrenHeaders) - 1 ==> sibReady(a, chi + 1, child))
+//@        because "tree invariant (composition): the siblings of the child are well-formed, in band, of the same level"
+//@   ensures err != nil ==> categorised(err)
+//@   ensures[C06] err == nil ==> wfMeta(a) && a.header.count == old(a.header.count) && a.header.slabID == old(a.header.slabID)
+//@   ensures[C01] err == nil ==> (len(a.childrenHeaders) == len(old(a.childrenHeaders)) || len(a.childrenHeaders) == len(old(a.childrenHeaders)) - 1)
+//@   ensures[C05] err == nil ==> (forall k :: 0 <= k && k < len(a.childrenHeaders) && (forall j :: 0 <= j && j < len(old(a.childrenHeaders)) && j != chi ==> hdrBand(old(a.childrenHeaders)[j])) ==> hdrBand(a.childrenHeaders[k]))
+//@   ensures[C09] err == nil ==> sto[a.header.slabID] == a && distinctChildren(a)
+//@   ensures[C09] err == nil ==> agree(a)
+//@   ensures[C03] err == nil ==> has(stored, a)
+//@   modifies ArrayMetaDataSlab.childrenHeaders, ArrayMetaDataSlab.childrenCountSum, ArrayMetaDataSlab.header, ArrayDataSlab.elements, ArrayDataSlab.header, ArrayDataSlab.next,
+//@        ghost.sto, ghost.stored, ghost.touched, alloc
